@@ -5,8 +5,9 @@ stub flask package, Bottle plugin over a stub bottle package) x options x a body
 fresh file-backed SQLite database.  The committed table contents are read back through a separate plain sqlite3
 connection at every probe point (attempt start, after explicit commit(), after a nested session exits, before a
 generator suspends), right after the session and again after one following empty db_session; the number of body
-executions and the exception that leaves the session are recorded.  Everything is compared with vlib/c18_model.predict (a reference function that imports
-nothing from Pony; its rules R1-R9 cite the db_session documentation and pony/orm/tests/test_db_session.py).
+executions and the exception that leaves the session are recorded.  Everything is compared with
+vlib/c18_model.predict (a reference function that imports nothing from Pony; its rules R1-R9 cite the db_session
+documentation and pony/orm/tests/test_db_session.py).
 """
 import os, shutil
 
@@ -21,8 +22,9 @@ RULE = ('hypothesis draws form in {decorator, context manager, generator/corouti
         'scripts of steps set/del/flush/commit/rollback/raise X/doomed duplicate insert/yield(with caught classes)/'
         'nested session (decorator or context manager with own options, depth <= 3, optionally catching the inner '
         'exception) x for generators a consumer script of next/send/throw X/close. One case = one such script run on a '
-        'fresh SQLite file, followed by one empty db_session (which must not make anything durable). Non-trivial = at some commit-or-rollback decision (normal end, exception leaving the '
-        'outermost body, suspension) uncommitted changes are pending, or the body is re-run; distinct by '
+        'fresh SQLite file, followed by one empty db_session (which must not make anything durable). Non-trivial = at '
+        'some commit-or-rollback decision (normal end, exception leaving the outermost body, suspension) uncommitted '
+        'changes are pending, or the body is re-run; distinct by '
         '(form, options, executed step trace, consumer actions used). Refusals (TypeError for retry on a context '
         'manager / generator, same class in both lists; TransactionError on suspension with only reads in an open '
         'transaction) are counted as rejected.')
@@ -32,7 +34,7 @@ ASSUMPTIONS = ['SQLite 3.40 live, file-backed, one thread; committed state read 
                'Python exception semantics (issubclass / isinstance, generator protocol) are the trusted base',
                'reference rules R1-R9 in vlib/c18_model.py as read from the db_session documentation']
 SHARDS = {'quick': 4, 'thorough': 16}
-MIN_EVALS = {'quick': 2500, 'thorough': 50000}
+MIN_EVALS = {'quick': 2500, 'thorough': 30000}
 CLASS_FLOORS = {'form:decorator': 0.15, 'form:context': 0.10, 'form:generator': 0.15, 'form:flask': 0.05,
                 'form:bottle': 0.08, 'outcome:rollback': 0.10, 'outcome:commit': 0.10, 'outcome:allowed_commit': 0.02,
                 'retried': 0.03, 'depth>1': 0.10, 'allowed_through_superclass:list': 0.001,
@@ -41,11 +43,11 @@ CLASS_FLOORS = {'form:decorator': 0.15, 'form:context': 0.10, 'form:generator': 
                 'raise:before_write': 0.03}
 
 BUDGET = {   # examples per shard: (quick, thorough)
-    'decorator': (280, 1600),
-    'context': (150, 800),
-    'generator': (240, 1400),
-    'flask': (90, 450),
-    'bottle': (140, 750),
+    'decorator': (280, 1000),
+    'context': (150, 500),
+    'generator': (240, 850),
+    'flask': (90, 280),
+    'bottle': (140, 470),
 }
 
 
